@@ -62,7 +62,7 @@ def _hash_tree(paths):
                 for f in sorted(fn):
                     files.append(os.path.join(dp, f))
         for f in files:
-            h.update(f.encode())
+            h.update(os.path.relpath(f, root).encode())
             try:
                 with open(f, "rb") as fh:
                     h.update(hashlib.sha256(fh.read()).digest())
@@ -111,7 +111,7 @@ def gen_files():
     for pre in ("messages-", "lib-"):
         ents = sorted((f for f in os.listdir(CACHE) if f.startswith(pre) and ".tmp" not in f),
                       key=lambda f: os.path.getmtime(os.path.join(CACHE, f)))
-        for f in ents[:-6]:
+        for f in ents[:-40]:
             with contextlib.suppress(OSError):
                 os.remove(os.path.join(CACHE, f))
     return out
@@ -121,8 +121,18 @@ def make_overlay(sdir, harness=None, extra=None):
     """harness: list of (path under /verif/harness, destination path relative to /repo).
     A source ending in .tmpl has {{PKG}} substituted from a (src, dst, pkg) triple."""
     g = gen_files()
-    rep = {REPO + "/internal/i18n/messages.go": g["messages"],
-           REPO + "/internal/cli/app/lib.zip": g["libzip"]}
+    # private copies: a concurrent run pruning the shared cache must not pull files from under this build
+    priv = {}
+    for k, name in (("messages", "gen_messages.go"), ("libzip", "gen_lib.zip")):
+        priv[k] = os.path.join(sdir, name)
+        if not os.path.exists(priv[k]):
+            try:
+                shutil.copy(g[k], priv[k])
+            except OSError:
+                g = gen_files()
+                shutil.copy(g[k], priv[k])
+    rep = {REPO + "/internal/i18n/messages.go": priv["messages"],
+           REPO + "/internal/cli/app/lib.zip": priv["libzip"]}
     for ent in harness or []:
         src, dst = ent[0], ent[1]
         s = src if os.path.isabs(src) else os.path.join(VERIF, "harness", src)
@@ -345,7 +355,10 @@ class Check:
 
     def finish(self):
         known, _fixed = load_findings(self.prop)
-        os.makedirs(os.path.join(VERIF, "evidence"), exist_ok=True)
+        # evidence is only ever written for runs against /repo itself; runs against a scratch worktree
+        # (development, seeded changes) leave the committed evidence alone
+        evdir = os.path.join(VERIF, "evidence") if os.path.realpath(REPO) == "/repo" else "/var/tmp/verif-alt-evidence"
+        os.makedirs(evdir, exist_ok=True)
         os.makedirs(os.path.join(VERIF, "replays"), exist_ok=True)
         seen_known, new = {}, {}
         for key, what, replay in self.cands:
@@ -366,7 +379,7 @@ class Check:
               "level": self.level, "coverage": self.cov, "assumptions": self.assumptions,
               "wall_s": round(time.time() - self.t0, 2), "violations": len(new),
               "known_findings_observed": sorted(seen_known), "notes": self.notes}
-        json.dump(ev, open(os.path.join(VERIF, "evidence", self.prop + ".json"), "w"), indent=1, default=str)
+        json.dump(ev, open(os.path.join(evdir, self.prop + ".json"), "w"), indent=1, default=str)
         return rc
 
 
